@@ -21,7 +21,11 @@ RULE = ('vsched harness (real pthreads, one baton; every pthread_mutex_*/cond_* 
         'matched by exactly one counted wake-up of the same address; 2 only for timed waits not already counted; no '
         'scheduler-detected deadlock, no stuck waiter after notify(inf), ASan/UBSan silent. Non-trivial = schedule with a notify '
         'while waiters are blocked on >= 2 addresses or several on one, a timeout/notify race, a spurious wake-up, or live '
-        'bucket-colliding addresses; distinct by (programs, decision string).')
+        'bucket-colliding addresses; distinct by (programs, decision string). Unit level (rapidcheck, ASan+UBSan): futex/map.c + '
+        'futex/list.c driven as futex.c drives them (insert absent keys only, slot pointers held across other operations, waiters '
+        'prepended and removed through their slot) against std::map / std::vector over generated histories with bucket-colliding '
+        'keys and with hundreds of distinct addresses parked at once: lookups, list order, slot stability, removal results, and '
+        'mapFree releasing every remaining value exactly once.')
 ASSUME = ['vsched models pthread semantics (spurious wake-ups allowed, signal wakes any one waiter, timedwait may time out at any '
           'point); liveness is a scheduler choice, not real time', 'the search samples schedules; it does not enumerate them']
 
@@ -298,13 +302,74 @@ def race_task(wid, seed, params):
     return res
 
 
+RCMAP_CMD = ['clang++', '-std=gnu++17', '-g', '-O1', '-fsanitize=address,undefined', '-fno-sanitize-recover=undefined']
+
+
+def rcmap_binary():
+    """rapidcheck model test of futex/map.c + futex/list.c (compiled as C, with ASan+UBSan) against std::map"""
+    import hashlib
+    import re
+    fx = os.path.join(cexec.REPO, 'futex')
+    mt = re.search(r'#define\s+FUTEX_BUCKET_COUNT\s+(\d+)', open(os.path.join(fx, 'futex.c')).read())
+    buckets = int(mt.group(1)) if mt else 1024
+    cd = cexec.cache_dir()
+    objs = []
+    for c in ('map.c', 'list.c'):
+        o = os.path.join(cd, 'rcmap-' + c[:-2] + '.o')
+        if not os.path.exists(o):
+            r = cexec.run(['clang', '-g', '-O1', '-w', '-fsanitize=address,undefined', '-fno-sanitize-recover=undefined',
+                           '-DWASM_THREADS_PTHREADS', '-I', os.path.join(cexec.REPO, 'w2c2'), '-c', os.path.join(fx, c), '-o', o + '.%d.tmp' % os.getpid()])
+            if r.returncode != 0:
+                raise cexec.InfraError('building %s failed: %s' % (c, r.stderr.decode(errors='replace')[-1500:]))
+            os.rename(o + '.%d.tmp' % os.getpid(), o)
+        objs.append(o)
+    return cexec.build_unit('rc_futexmap.cpp', 'rc_futexmap', RCMAP_CMD + ['-DVF_BUCKETS=%d' % buckets, '-DWASM_THREADS_PTHREADS'], extra_args=objs,
+                            libs=['-lrapidcheck', '-lpthread'])
+
+
+def rcmap_run(seed, n):
+    exe = rcmap_binary()
+    env = dict(os.environ)
+    env.update(cexec.ASAN_ENV)
+    env['RC_PARAMS'] = 'seed=%d max_success=%d max_size=%d' % (seed % (1 << 31), n, 200)
+    r = subprocess.run([exe], stdout=subprocess.PIPE, stderr=subprocess.PIPE, env=env, timeout=3000)
+    return r, r.stdout.decode(errors='replace'), r.stderr.decode(errors='replace')
+
+
+def rcmap_task(wid, seed, params):
+    import re
+    res = {'evaluations': 0, 'nontrivial': set(), 'classes': collections.Counter(), 'samples': [], 'violations': [],
+           'infra': [], 'extra': {}}
+    r, out, err = rcmap_run(seed, params['n'])
+    mt = re.search(r'RC-STATS cases=(\d+) ops=(\d+) collide=(\d+) many=(\d+) maxlive=(\d+) listops=(\d+)', out)
+    if mt:
+        res['evaluations'] = int(mt.group(1))
+        res['classes']['futexmap_history_with_live_colliding_keys'] = int(mt.group(3))
+        res['classes']['futexmap_history_with_hundreds_of_parked_addresses'] = int(mt.group(4))
+        res['extra'] = {'futexmap_operations': int(mt.group(2)), 'futexmap_max_live_waiters': int(mt.group(5))}
+        for i in range(int(mt.group(3)) + int(mt.group(4))):
+            res['nontrivial'].add('rcmap%d-%d-%d' % (seed, wid, i))
+    if r.returncode != 0 or 'Falsifiable' in out:
+        key = ([l for l in (out + err).splitlines() if 'ERROR: AddressSanitizer' in l or 'runtime error' in l or 'RC_ASSERT' in l or 'Falsifiable' in l] or ['exit %r' % r.returncode])[0]
+        head = out[max(out.find('Falsifiable') - 100, 0):][:900] if 'Falsifiable' in out else (out[-300:] + err[-1200:])
+        res['violations'].append({'signature': 'c17:rc_futexmap:' + f1.normalize_diag(key), 'summary': 'futex map / wait list model test failed: ' + head[:700],
+                                  'replay': {'kind': 'rcmap', 'seed': seed % (1 << 31), 'n': params['n'], 'output': head}})
+    res['samples'].append('rapidcheck futex map: ' + (mt.group(0) if mt else (out + err)[-200:]))
+    return res
+
+
 def dispatch(wid, seed, params):
+    if params.get('rcmap'):
+        return rcmap_task(wid, seed, params)
     if params.get('race'):
         return race_task(wid, seed, params)
     return task(wid, seed, params)
 
 
 def replay(rp):
+    if rp.get('kind') == 'rcmap':
+        r, out, err = rcmap_run(rp['seed'], rp['n'])
+        return r.returncode != 0 or 'Falsifiable' in out
     if rp.get('kind') == 'race':
         for _ in range(3):
             bad, _ = run_race(rp['case'])
@@ -317,8 +382,8 @@ def replay(rp):
 
 def plan(tier, seed):
     if tier == 'quick':
-        return [{'ncases': 60, 'schedules': 12, 'maxops': 6} for _ in range(32)] + [{'race': True, 'ncases': 2, 'rounds': 4000} for _ in range(4)]
-    return [{'ncases': 1200, 'schedules': 25, 'maxops': 8} for _ in range(64)] + [{'race': True, 'ncases': 6, 'rounds': 40000} for _ in range(8)]
+        return [{'ncases': 60, 'schedules': 12, 'maxops': 6} for _ in range(32)] + [{'race': True, 'ncases': 2, 'rounds': 4000} for _ in range(4)] + [{'rcmap': True, 'n': 1500} for _ in range(2)]
+    return [{'ncases': 1200, 'schedules': 25, 'maxops': 8} for _ in range(64)] + [{'race': True, 'ncases': 6, 'rounds': 40000} for _ in range(8)] + [{'rcmap': True, 'n': 20000} for _ in range(8)]
 
 
 def run(tier, seed):
